@@ -18,10 +18,14 @@ class SimpleOperationExecutor:
     # Private attributes:
     #
     # BuildDirs _build_dirs - The BuildDirs instance for the current build.
-    # dict<str, tuple<str, bool>> _hash_cache - A cache mapping from norm-cased
+    # dict<str, tuple<str, int>> _hash_cache - A cache mapping from norm-cased
     #     filenames to their hashes. Each value is a pair consisting of the
-    #     SHA-256 hex string and a boolean indicating whether we have started
-    #     (or finished) building the file.
+    #     SHA-256 hex string and the file's generation (see _hash_generations)
+    #     at the time we started reading the file.
+    # dict<str, int> _hash_generations - A map from each norm-cased filename
+    #     whose contents we have (re)written in the current build to the number
+    #     of times we have done so. See forget_hash. Guarded by
+    #     _hash_cache_lock.
     # Lock _hash_cache_lock - The lock guarding access to _hash_cache.
     # Cache _new_cache - The Cache object storing the cached results for the
     #     current build. Note that we don't add created directories to
@@ -43,6 +47,7 @@ class SimpleOperationExecutor:
         self._new_cache = new_cache
         self._build_dirs = build_dirs
         self._hash_cache = {}
+        self._hash_generations = {}
         self._hash_cache_lock = threading.Lock()
 
     def exec(self, name, args, created_files):
@@ -98,6 +103,18 @@ class SimpleOperationExecutor:
             return self._file_hash(filename)
         else:
             raise ValueError('Not a file comparison name')
+
+    def forget_hash(self, filename):
+        """Respond to the specified file's contents having been rewritten.
+
+        Any hash of the file that we computed earlier in the build, or that
+        another thread is computing right now from the old contents, is no
+        longer valid.
+        """
+        norm_cased_filename = os.path.normcase(filename)
+        with self._hash_cache_lock:
+            self._hash_generations[norm_cased_filename] = (
+                self._hash_generations.get(norm_cased_filename, 0) + 1)
 
     def is_cache_file(self, filename):
         """Return whether the specified file is the cache file."""
@@ -297,12 +314,12 @@ class SimpleOperationExecutor:
     def _file_hash(self, filename):
         """Implementation of ``file_comparison_result`` for ``'HASH'``."""
         norm_cased_filename = os.path.normcase(filename)
-        is_built = self._new_cache.has_norm_cased_file(norm_cased_filename)
 
         # Check _hash_cache
         with self._hash_cache_lock:
+            generation = self._hash_generations.get(norm_cased_filename, 0)
             cache_entry = self._hash_cache.get(norm_cased_filename)
-        if cache_entry is not None and cache_entry[1] == is_built:
+        if cache_entry is not None and cache_entry[1] == generation:
             # Manually check whether the file exists, since we won't be calling
             # "open"
             if not os.path.isfile(norm_cased_filename):
@@ -321,7 +338,7 @@ class SimpleOperationExecutor:
         hash_ = digest.hexdigest()
 
         with self._hash_cache_lock:
-            self._hash_cache[norm_cased_filename] = (hash_, is_built)
+            self._hash_cache[norm_cased_filename] = (hash_, generation)
         return hash_
 
     def _is_file_no_read(self, norm_cased_filename, created_files):
